@@ -9,6 +9,7 @@ CONSTANTS
   Scenario = "all"
   Size = "s"
   Prelude = 0
+  Reads = {}
   DevShift = FALSE
 CONSTRAINT Bounded
 VIEW View
